@@ -123,6 +123,11 @@ TraceNext ==
                /\ (RangeQ(ev.returned) # RangeQ(ev.keys) =>
                      PrintT(<<"VERDICT", ToJson([run |-> run, l |-> l, v |-> "bad", op |-> "SCAN",
                                                  what |-> "a full SCAN iteration did not return exactly the keys of the keyspace"])>>))
+          ELSE IF ev.a = "scanpair" THEN    \* C03 read literally for the one command whose single reply the model leaves free
+               /\ run' = run /\ pre' = pre /\ known' = known
+               /\ (ev.one # ev.many =>
+                     PrintT(<<"VERDICT", ToJson([run |-> run, l |-> l, v |-> "bad", op |-> "SCAN",
+                                                 what |-> "one SCAN call is answered differently by a 1-shard and an N-shard server holding the same keys"])>>))
           ELSE IF ev.c.op \in ScriptOps THEN
                /\ JudgeScript(ev) /\ run' = run /\ pre' = JState(ev.s)
                /\ known' = DoScript(ev.c, pre, known, ev.now).kn
